@@ -1,7 +1,8 @@
 CONSTANTS
-  MaxNodes = 9
+  MaxNodes = 18
   MaxArity = 3
   NKeys = 10
+  MaxDocs = 4
 SPECIFICATION Spec
 INVARIANT Emit
 CHECK_DEADLOCK FALSE
